@@ -30,6 +30,13 @@ type DevOp struct {
 	Data []byte
 }
 
+// JEntry is one entry of the global I/O journal shared by all media of a store: which
+// device ('D' data, 'I' index, 'F' state directory) and the index into that device's own log.
+type JEntry struct {
+	Dev byte
+	Idx int
+}
+
 // SimBlockDevice is an in-memory block device with an operation log,
 // scheduling gates, fault injection and corruption.
 type SimBlockDevice struct {
@@ -51,6 +58,18 @@ type SimBlockDevice struct {
 	OnWrite              func(off int64, n int) // monitor hook, called before the write takes effect
 	OnRead               func(off int64, n int)
 	SyncCalls            []SyncCall
+	Journal              *[]JEntry
+	JKind                byte
+}
+
+func (d *SimBlockDevice) logOp(o DevOp) {
+	if !d.Logging {
+		return
+	}
+	d.Log = append(d.Log, o)
+	if d.Journal != nil {
+		*d.Journal = append(*d.Journal, JEntry{Dev: d.JKind, Idx: len(d.Log) - 1})
+	}
 }
 
 // SyncCall records virtual start/end times of Sync invocations.
@@ -111,9 +130,7 @@ func (d *SimBlockDevice) WriteAt(p []byte, off int64) (int, error) {
 		d.OnWrite(off, len(p))
 	}
 	copy(d.Image[off:], p)
-	if d.Logging {
-		d.Log = append(d.Log, DevOp{Kind: 'W', Off: off, Data: append([]byte(nil), p...)})
-	}
+	d.logOp(DevOp{Kind: 'W', Off: off, Data: append([]byte(nil), p...)})
 	return len(p), nil
 }
 
@@ -129,16 +146,12 @@ func (d *SimBlockDevice) Sync() error {
 			sc.WritesBefore++
 		}
 	}
-	if d.Logging {
-		d.Log = append(d.Log, DevOp{Kind: 'S'})
-	}
+	d.logOp(DevOp{Kind: 'S'})
 	if d.SyncFaults > 0 && vsched.Choose("fault", 2) == 1 {
 		d.SyncFaults--
 		sc.End, sc.Failed = vsched.Now(), true
 		d.SyncCalls = append(d.SyncCalls, sc)
-		if d.Logging {
-			d.Log = append(d.Log, DevOp{Kind: 'f'})
-		}
+		d.logOp(DevOp{Kind: 'f'})
 		return errInjectedIO
 	}
 	if d.Gates {
@@ -146,9 +159,7 @@ func (d *SimBlockDevice) Sync() error {
 	}
 	sc.End = vsched.Now()
 	d.SyncCalls = append(d.SyncCalls, sc)
-	if d.Logging {
-		d.Log = append(d.Log, DevOp{Kind: 's'})
-	}
+	d.logOp(DevOp{Kind: 's'})
 	return nil
 }
 
@@ -164,6 +175,7 @@ func (d *SimBlockDevice) Clone() *SimBlockDevice {
 	c.Misaligned = nil
 	c.OnWrite, c.OnRead = nil, nil
 	c.WriteFaults, c.SyncFaults, c.ReadFaults = 0, 0, 0
+	c.Journal = nil
 	return &c
 }
 
@@ -186,7 +198,15 @@ type SimDirectory struct {
 	Log   []DirOp
 	Gates bool
 	// Fault budget: any of the mutating operations may fail while > 0.
-	Faults int
+	Faults  int
+	Journal *[]JEntry
+}
+
+func (d *SimDirectory) logOp(o DirOp) {
+	d.Log = append(d.Log, o)
+	if d.Journal != nil {
+		*d.Journal = append(*d.Journal, JEntry{Dev: 'F', Idx: len(d.Log) - 1})
+	}
 }
 
 // NewDirectory creates an empty state directory.
@@ -214,7 +234,7 @@ func (d *SimDirectory) Remove(name path.Component) error {
 		return &os.PathError{Op: "remove", Path: name.String(), Err: syscall.ENOENT}
 	}
 	delete(d.Files, name.String())
-	d.Log = append(d.Log, DirOp{Kind: "remove", Name: name.String()})
+	d.logOp(DirOp{Kind: "remove", Name: name.String()})
 	return nil
 }
 
@@ -227,7 +247,7 @@ func (d *SimDirectory) OpenAppend(name path.Component, mode filesystem.CreationM
 		return nil, &os.PathError{Op: "open", Path: name.String(), Err: syscall.EEXIST}
 	}
 	d.Files[name.String()] = []byte{}
-	d.Log = append(d.Log, DirOp{Kind: "create", Name: name.String()})
+	d.logOp(DirOp{Kind: "create", Name: name.String()})
 	return &simFile{d: d, name: name.String()}, nil
 }
 
@@ -257,7 +277,7 @@ func (d *SimDirectory) Rename(oldName path.Component, newDirectory filesystem.Di
 	}
 	delete(d.Files, oldName.String())
 	d.Files[newName.String()] = b
-	d.Log = append(d.Log, DirOp{Kind: "rename", Name: oldName.String(), To: newName.String()})
+	d.logOp(DirOp{Kind: "rename", Name: oldName.String(), To: newName.String()})
 	return nil
 }
 
@@ -266,7 +286,7 @@ func (d *SimDirectory) Sync() error {
 	if err := d.gate("dirsync"); err != nil {
 		return err
 	}
-	d.Log = append(d.Log, DirOp{Kind: "dirsync"})
+	d.logOp(DirOp{Kind: "dirsync"})
 	return nil
 }
 
@@ -281,7 +301,7 @@ func (f *simFile) Write(p []byte) (int, error) {
 		return 0, err
 	}
 	f.d.Files[f.name] = append(f.d.Files[f.name], p...)
-	f.d.Log = append(f.d.Log, DirOp{Kind: "write", Name: f.name, Data: append([]byte(nil), p...)})
+	f.d.logOp(DirOp{Kind: "write", Name: f.name, Data: append([]byte(nil), p...)})
 	return len(p), nil
 }
 
@@ -289,13 +309,13 @@ func (f *simFile) Sync() error {
 	if err := f.d.gate("fsync"); err != nil {
 		return err
 	}
-	f.d.Log = append(f.d.Log, DirOp{Kind: "fsync", Name: f.name})
+	f.d.logOp(DirOp{Kind: "fsync", Name: f.name})
 	return nil
 }
 
 func (f *simFile) Close() error {
 	f.closed = true
-	f.d.Log = append(f.d.Log, DirOp{Kind: "close", Name: f.name})
+	f.d.logOp(DirOp{Kind: "close", Name: f.name})
 	return nil
 }
 
